@@ -29,11 +29,30 @@ inline Op const* op_of(Plan const& p, int64_t id)
   return nullptr;
 }
 
-// encoded size of a generic site-0 statement: 8 (timestamp) + 24 (metadata, logger, decoder) + 8 (id) + 4 + payload
+// encoded size of a generic statement: 8 (timestamp) + 24 (metadata, logger, decoder) + arguments
+//   site 0: id(8) + std::string(4+n)            site 1: id(8) + uint32(4) + string_view(4+n)
+//   site 2: id(8) + c-string(n+1) + double(8) + int64(8)      site 3: id(8) + std::string(4+n) + int(4)
 inline size_t encoded_size_of(Plan const& p, int64_t id)
 {
   Op const* op = op_of(p, id);
-  return op ? 44 + static_cast<size_t>(op->v[4]) : 0;
+  if (!op)
+  {
+    return 0;
+  }
+  size_t n = static_cast<size_t>(op->v[4]);
+  switch (op->v[1] % 7)
+  {
+  case 1:
+    return 48 + n;
+  case 2:
+    return 57 + n;
+  case 3:
+    return 48 + n;
+  case 4:
+    return 44 + n + 1; // dynamic level byte
+  default:
+    return 44 + n;
+  }
 }
 
 struct DeliveryRules
